@@ -329,13 +329,15 @@ R.add('L9.4', l94, lambda tier: [dict(q=q) for q in ((1, 2, 3) if tier == 'quick
       expect=['messages that fit together travel in one datagram'])
 
 
-def l95(n):
-    """n tiny (possibly empty) messages per tick: packing neither raises nor loses messages"""
+def l95(n, retry=False):
+    """n tiny (possibly empty) messages per tick: packing neither raises nor loses messages.  With retry=True the messages
+    are BEST_EFFORT, no ack ever arrives, and after the resend delay all n are due for retransmission in the same tick:
+    the resend path obeys the same limits (count field, size) and re-sends each message once."""
     c = mk_sender(mtu_sym=False)
     L = symint('tiny_len', 0, 2)
     for i in range(n):
-        c.send(rope.fixed_blob('t%d' % i, 0) if False else rope.mk([('view', rope.Blob('t%d' % i, rope._zi(L)), z3.IntVal(0), rope._zi(L))]),
-               RetryMode.NONE, None)
+        c.send(rope.mk([('view', rope.Blob('t%d' % i, rope._zi(L)), z3.IntVal(0), rope._zi(L))]),
+               RetryMode.BEST_EFFORT if retry else RetryMode.NONE, None)
     queued = len(c.outgoing_messages)
     check(queued == n, 'all sends queued')
     sent = 0
@@ -344,7 +346,7 @@ def l95(n):
         if before == 0:
             break
         try:
-            pkt = c._build_packet_impl(100.0 + tick, False, 0.1)
+            pkt = c._build_packet_impl(100.0 + tick * 0.001, False, 0.1)
             raw = pkt.to_bytes(KEY) if pkt is not None else b''
         except Exception as ex:
             core.fail('packet construction raised', error=repr(ex))
@@ -353,6 +355,20 @@ def l95(n):
         check(len(pkt.msgs) + len(c.outgoing_messages) == before, 'no message lost')
         sent += len(pkt.msgs)
     check(sent == n, 'every queued message eventually packed')
+    if retry:
+        check(len(c.pending_retry_msg) == n, 'every unacknowledged BEST_EFFORT message waits for its retransmission')
+        resent = []
+        for tick in range(n + 1):
+            try:
+                pkt = c._build_packet_impl(200.0 + tick * 0.001, False, 0.1)
+                raw = pkt.to_bytes(KEY) if pkt is not None else b''
+            except Exception as ex:
+                core.fail('packet construction raised', error=repr(ex))
+            if pkt is None:
+                break
+            check(pkt.hdr.count == len(pkt.msgs), 'count field holds the number of messages')
+            resent.extend(m.seq for m in pkt.msgs)
+        check(len(resent) == n and len(set(int(x) for x in resent)) == n, 'every message due for retransmission is re-sent once')
 
 
 def replay_l95(cfg, m):
@@ -362,27 +378,43 @@ def replay_l95(cfg, m):
     cn.status = c.ConnectionStatus.CONNECTED
     cn.session_key_bytes = KEY
     n = cfg['n']
+    retry = cfg.get('retry', False)
     for i in range(n):
-        cn.send(os.urandom(m.get('tiny_len', 0)))
+        cn.send(os.urandom(m.get('tiny_len', 0)), retry=(c.RetryMode.BEST_EFFORT if retry else c.RetryMode.NONE))
     sent = 0
     try:
         for tick in range(n + 1):
             if not cn.outgoing_messages:
                 break
             before = len(cn.outgoing_messages)
-            pkt = cn._build_packet_impl(100.0 + tick, False, 0.1)
+            pkt = cn._build_packet_impl(100.0 + tick * 0.001, False, 0.1)
             pkt.to_bytes(KEY)
             if len(pkt.msgs) + len(cn.outgoing_messages) != before:
                 return True, 'lost'
             sent += len(pkt.msgs)
     except Exception as e:
         return True, 'raised %r after %d sent, %d left queued' % (e, sent, len(cn.outgoing_messages))
-    return sent != n, 'sent=%d' % sent
+    if sent != n or not retry:
+        return sent != n, 'sent=%d' % sent
+    resent = []
+    try:
+        for tick in range(n + 1):
+            pkt = cn._build_packet_impl(200.0 + tick * 0.001, False, 0.1)
+            if pkt is None:
+                break
+            pkt.to_bytes(KEY)
+            resent.extend(int(x.seq) for x in pkt.msgs)
+    except Exception as e:
+        return True, 'retransmission raised %r after %d of %d re-sent' % (e, len(resent), n)
+    return len(resent) != n or len(set(resent)) != n, 're-sent %d (distinct %d) of %d' % (len(resent), len(set(resent)), n)
 
 
-R.add('L9.5', l95, lambda tier: [dict(n=n) for n in ((2, 255, 256, 300) if tier == 'quick' else (1, 2, 3, 254, 255, 256, 257, 300, 600))],
-      replay=replay_l95, desc='hundreds of tiny messages per tick: construction never raises, nothing lost',
-      expect=['every queued message eventually packed'], bounds='n in {2,255,256,300} (thorough up to 600), lengths 0..2')
+R.add('L9.5', l95, lambda tier: [dict(n=n) for n in ((2, 255, 256, 300) if tier == 'quick' else (1, 2, 3, 254, 255, 256, 257, 300, 600))]
+      + [dict(n=n, retry=True) for n in ((2, 256, 300) if tier == 'quick' else (1, 2, 255, 256, 257, 300, 600))],
+      replay=replay_l95, desc='hundreds of tiny messages per tick, first transmission and retransmission (BEST_EFFORT, no ack, all due in one tick): '
+                              'construction never raises, nothing lost, every due message re-sent once',
+      expect=['every queued message eventually packed', 'every message due for retransmission is re-sent once'],
+      bounds='n in {2,255,256,300} (thorough up to 600), lengths 0..2; retransmission round with n in {2,256,300} (thorough up to 600)')
 
 # ------------------------------------------------------------------ L9.6 packing never wedges on what send() queues
 # "packet construction never fails or loses messages" includes the messages the library itself produces: whatever
